@@ -147,6 +147,27 @@ def run(ctx: Ctx):
     ctx.fn(ev)
     okr = any(isinstance(n, ast.With) and "inference_mode" in ast.unparse(n.items[0].context_expr) for n in ast.walk(ev.node))
     ctx.ob("C16.a", "RolloutBaseline.wrap_dataset:detached", okd and okr, fi.loc, f"rollout under inference_mode: {okr}; rewards detached before add_key: {okd}", construct="RolloutBaseline.wrap_dataset:detach")
+    # the greedy-rollout baseline is a FROZEN copy of the policy: a deep copy, so optimiser steps on the policy do not move it
+    up = rb.methods["_update_policy"]
+    ctx.fn(up)
+    itu = vg.Interp(ctx.repo, rb, inline_policy=lambda f, a: False)
+    itu.run_function(up)
+    pol = itu.selfattrs.get("policy")
+    base = pol
+    while isinstance(base, vg.S) and base.op == "meth" and base.args[1] in ("to", "cpu", "cuda", "eval", "requires_grad_"):
+        base = base.args[0]
+    okf = isinstance(base, vg.S) and nf._fn(base) == "copy.deepcopy" and len(base.args) == 2 and base.args[1].op == "param" and base.args[1].args[0] == up.params()[1]
+    ctx.ob("C16.a", "RolloutBaseline._update_policy:frozen-copy", okf, up.loc,
+           "self.policy = copy.deepcopy(policy): parameters of the baseline policy are not shared with the trained policy" if okf else
+           f"self.policy = {vg.show(pol, 4) if isinstance(pol, vg.S) else pol}: not a deep copy of the policy -- the baseline shares parameters with the policy being trained, so its values follow every optimiser step",
+           construct="RolloutBaseline._update_policy:copy")
+    # stateful baselines' own formulas are part of the reference surrogate (shared with C20.c / C20.d)
+    from . import C20
+    n0 = len(ctx.obligations)
+    C20.exponential_rules(ctx)
+    C20.warmup_rules(ctx)
+    for o in ctx.obligations[n0:]:
+        o.rule = "C16.d"
     # ---------------- REINFORCE.calculate_loss
     rf = ctx.repo.get_class(RF, "REINFORCE")
     fi = rf.methods["calculate_loss"]
